@@ -17,6 +17,36 @@ mod template;
 mod trojan;
 mod vmess;
 
+/// Verification hooks: re-exports of otherwise private codecs and handshake code.
+#[cfg(octo_squirrel_verif)]
+pub mod verif {
+    pub use super::config::SslConfig;
+    pub use super::handshake::Proxy;
+    pub use super::handshake::get_request_addr;
+    pub use super::handshake::verif_recognize_http as recognize_http;
+    pub mod shadowsocks {
+        pub mod tcp {
+            pub use crate::client::shadowsocks::tcp::ClientContext;
+            pub use crate::client::shadowsocks::tcp::PayloadCodec;
+            pub use crate::client::shadowsocks::tcp::new_payload_codec;
+        }
+        pub mod udp {
+            pub use crate::client::shadowsocks::udp::Client;
+            pub use crate::client::shadowsocks::udp::DatagramPacketCodec;
+        }
+    }
+    pub mod vmess {
+        pub use crate::client::vmess::ClientAEADCodec;
+        pub use crate::client::vmess::tcp::new_codec as new_tcp_codec;
+        pub use crate::client::vmess::udp::new_codec as new_udp_codec;
+    }
+    pub mod trojan {
+        pub use crate::client::trojan::tcp::ClientCodec as TcpClientCodec;
+        pub use crate::client::trojan::tcp::new_codec as new_tcp_codec;
+        pub use crate::client::trojan::udp::ClientCodec as UdpClientCodec;
+    }
+}
+
 pub async fn main() -> anyhow::Result<()> {
     let _ = tokio_rustls::rustls::crypto::aws_lc_rs::default_provider().install_default();
     let mut config = config::init()?;
